@@ -7,5 +7,6 @@ CONSTANTS
   Proto = "no_size_on_rewind"
   RequireLastLeaf = TRUE
   MaxSteps = 4
+  EmitAt = 5
 VIEW view
 INVARIANTS TypeOK AccIsFromScratch
